@@ -253,6 +253,30 @@ def substitute(ex, subst):
     return ex
 
 
+def closure_captures(P, parent, closure):
+    """index of a captured variable -> its origin in the creating function"""
+    O = X.Origins(parent, P)
+    for bb, j, st in parent.all_statements():
+        if st["k"] == "assign" and st["rv"]["k"] == "agg" and st["rv"].get("ak") == "closure" and \
+                (st["rv"]["def"] == closure.path or closure.path.endswith(st["rv"]["def"])):
+            return {i: O.operand(o, bb, j) for i, o in enumerate(st["rv"]["ops"])}
+    return {}
+
+
+def resolve_upvars(ex, caps):
+    """replaces ('upvar', i, name) leaves by the captured origins"""
+    if not isinstance(ex, tuple) or not ex:
+        return ex
+    if ex[0] == "upvar":
+        c = caps.get(ex[1])
+        if c is not None:
+            while c[0] in ("ref", "deref"):
+                c = c[1]
+            return c
+        return ex
+    return tuple(resolve_upvars(x, caps) if isinstance(x, tuple) else x for x in ex)
+
+
 # ------------------------------------------------------------------ fact sets of a function (for tables)
 def positional(ex):
     """renames parameters to `$<MIR local index>` so that table entries survive parameter renames"""
@@ -316,6 +340,8 @@ class FnFacts:
                     self.calls.setdefault("%s(%s)" % (d[0], ", ".join("%s=%s" % kv for kv in d[1])), []).append(cs)
                 if cs.fn is not None:
                     nm = X.short(cs.callee)
+                    if nm in ("cmp::min", "cmp::max"):
+                        nm = "Ord::" + nm[5:]        # the free functions are Ord::min / Ord::max
                     self.allcalls.setdefault("%s(%s)" % (nm, ", ".join(F.rd(a) for a in pargs)), []).append(cs)
             for (op, c, pos), locs in F.const_ops(b, O).items():
                 self.constops.setdefault("%s %d" % (op, c), []).extend(locs)
@@ -355,15 +381,66 @@ def _arg_match(ff, spec):
     return False
 
 
+def _split_args(inner):
+    out, depth, cur = [], 0, ""
+    for ch in inner:
+        if ch in "({[":
+            depth += 1
+        elif ch in ")}]":
+            depth -= 1
+        if ch == "," and depth == 0:
+            out.append(cur.strip())
+            cur = ""
+        else:
+            cur += ch
+    if cur.strip():
+        out.append(cur.strip())
+    return out
+
+
+def _alts(desc):
+    """alternatives of one argument descriptor: `phi{A | B}` -> [A, B]"""
+    d = desc.strip()
+    if d.startswith("phi{") and d.endswith("}"):
+        return [x.strip() for x in _split_args(d[4:-1].replace(" | ", ","))]
+    return [d]
+
+
+def _call_alternatives_match(ff, spec):
+    """a codec call whose arguments are chosen together on two paths and merged (`f(if c {a} else {b})`) shows one call with
+    `phi{a | b}` arguments; the table fact `f(p=a, q=c)` is present when every named argument is one of the alternatives"""
+    if "(" not in spec:
+        return False
+    name, inner = spec.split("(", 1)
+    want = dict(kv.split("=", 1) for kv in _split_args(inner[:-1]) if "=" in kv)
+    for k in ff.calls:
+        if not k.startswith(name + "(") or "phi{" not in k:
+            continue
+        have = dict(kv.split("=", 1) for kv in _split_args(k[len(name) + 1:-1]) if "=" in kv)
+        if set(have) == set(want) and all(want[p] in _alts(have[p]) for p in want):
+            return True
+    return False
+
+
 def fact_present(ff, fact):
     kind, spec = fact.split(":", 1)
     if kind == "cmp":
-        if spec.startswith("*|"):
-            suffix = spec[1:]
-            return any(k.endswith(suffix) for k in ff.cmps)
-        return spec in ff.cmps
+        specs = [spec]
+        # a zero test of an unsigned value is recorded as the boundary fact `x < 1` (facts.normalise_cmp): a table written
+        # as `x == 0` means the same thing
+        if spec.endswith("||eq|0"):
+            specs.append(spec[:-len("eq|0")] + "b|1")
+        for sp in specs:
+            if sp.startswith("*|"):
+                if any(k.endswith(sp[1:]) for k in ff.cmps):
+                    return True
+            elif sp in ff.cmps:
+                return True
+        return False
     if kind == "call":
-        return spec in ff.calls
+        if spec in ff.calls:
+            return True
+        return _call_alternatives_match(ff, spec)
     if kind == "cop":
         return spec in ff.constops
     if kind == "arg":
